@@ -172,6 +172,8 @@ class ExonCorrector:
                 assert event.read_region[0] == event.read_region[1]
                 # fake terminal exon, skip it
                 corrected_read_region = (read_introns[event.read_region[0]][1]+1, corrected_read_region[1])
+                # introns restored inside the skipped exon (fake micro intron retention) go with it
+                new_introns = [intron for intron in new_introns if intron[0] >= corrected_read_region[0]]
             elif event.event_type == MatchEventSubtype.fake_terminal_exon_right and \
                     self.params.correct_fake_terminal_exons:
                 assert event.read_region[0] == event.read_region[1]
